@@ -23,6 +23,28 @@ add("C47", "vh-misc", True, "exploration",
     "Generated multi-fragment Display values are written into buffers of every size around the exact fit inside a guard frame; text, NUL position, reported length, error and guard bytes are checked against std's own formatting.",
     "Expected text comes from std's String formatter. Held only on the inputs explored.")
 
+
+add("C38", "vh-afc", True, "exploration",
+    "metamorphic property testing (proptest): same parameters => interoperable keys, any single-parameter change => not, at the crypto API and through FFI + Handler + Client",
+    "Generated channel tuples and key pairs; the author's seal key and the peer's open key must open 1-3 messages exactly when no parameter differs; each single change (ids, label, parent, either key pair, encapsulation) on either side must give a refused derivation or keys that reject every message under identical AD/seq; role violations must return AuthorMustBeSealer.",
+    "Seeded non-cryptographic RNG replaces the CSPRNG; DefaultCipherSuite only; trusts the AEAD/HPKE primitives for 'cannot open' (forgery <= 2^-128). Held only on the inputs explored.")
+add("C39", "vh-afc", True, "exploration",
+    "round-trip + mutation/garbage-input property testing (proptest) of Client seal/open over memory and shm states, panic classification, sentinel-buffer leak oracle, second cipher suite with a non-cleaning AEAD",
+    "Generated messages of 0-2048 bytes through all seal x open interface pairs on memory and shared-memory states must return plaintext, label and sequence number; every single modification, truncation (all lengths below header+tag), foreign key/label message and arbitrary byte string of every length 0-64 (and longer) must return Err without panic and without the plaintext in the caller's buffer.",
+    "Raw seeded keys (derivation is C38); leak = exact plaintext (>= 8 distinctive bytes) as a contiguous run; AEAD forgery probability trusted. Held only on the inputs explored.")
+add("C15", "vh-crash", True, "fault_enumeration",
+    "link-time syscall interposition + crash-image enumeration: every syscall index of generated multi-commit workloads is a crash point whose unsynced writes are enumerated kept/lost/torn; each image is reopened through the real FileManager path, walked and compared with model-validated snapshots, then extended by one commit",
+    "Per workload all crash points and all 2^n kept/lost subsets (n<=8; seeded samples plus singles beyond) plus torn root/last-write variants are enumerated; workloads are sampled (12 quick / 153 thorough, plus 1.5k/30k generated cases): exhaustive over fault patterns of the sampled workloads, not over all workloads.",
+    "Assumes the POSIX durability contract (a write is durable only after a later f(data)sync on that fd; fsync == fdatasync incl. size), size changes only via fallocate/extension, directory entry of the created file durable (never fsynced by the code: not modelled), single crash; tmpfs as image medium.")
+add("C10", "vh-rt", True, "exploration",
+    "property testing over all first-command shapes plus generated follow-up batches (proptest)",
+    "First command into a missing graph in all 12 shapes {no/single/merge parent} x {policy present/absent} x {id matches or not}: creation iff parentless + policy + matching id, otherwise InitError and no graph listed; then batches mixing ordinary commands with the graph's own init (silent no-op) and foreign parentless commands (InitError).",
+    "MemStorageProvider only for this check; held on the cases explored.")
+add("C11", "vh-rt", True, "exploration",
+    "differential property testing against DAG reachability (proptest worlds, many small transactions => skip lists)",
+    "Every world command (committed or not) and fabricated ids are looked up by address; is_ancestor and get_location_from are compared with reachability in the abstract DAG for all pairs (small) or 500 sampled pairs incl. ancestor pairs (large), on graphs whose segments carry skip lists.",
+    "Ancestry oracle is reachability in the generated DAG; held on the graphs explored.")
+
 # not built yet: crate assignment only
 add("C01", "vh-rt", True, "exploration",
     'metamorphic + model-based property testing (proptest worlds, k delivery scripts, reference braid model)',
